@@ -606,7 +606,7 @@ Definition TwoPart (alts : list N) (ballots : list (list N)) : Prop :=
      (SetEq s t \/ SetEq (s ++ t) alts)).
 
 Definition two_cond (alts : list N) (parts : list (list N)) : Prop :=
-  length parts = 1 \/ (length parts = 2 /\ SetEq (concat parts) alts).
+  length parts <= 1 \/ (length parts = 2 /\ SetEq (concat parts) alts).
 
 Lemma SetEq_app s s' t t' : SetEq s s' -> SetEq t t' -> SetEq (s ++ t) (s' ++ t').
 Proof. intros H1 H2 x. rewrite !in_app_iff, (H1 x), (H2 x). reflexivity. Qed.
@@ -617,7 +617,10 @@ Proof.
   intros Hc Hcond. split; [now apply (part_check_sound ballots parts)|].
   apply part_check_spec in Hc. destruct Hc as (H1 & H2 & H3).
   destruct Hcond as [Hlen|[Hlen Hcov]].
-  - destruct parts as [|p [|q r]]; try discriminate.
+  - destruct parts as [|p [|q r]]; [| |simpl in Hlen; lia].
+    { (* no part: no ballot *)
+      left. destruct ballots as [|b bs]; [reflexivity|].
+      destruct (H1 b (or_introl eq_refl)) as (s & [] & _). }
     destruct (H2 p (or_introl eq_refl)) as (b0 & Hb0 & E0).
     right. exists b0, b0. repeat split; auto.
     + intros b Hb. destruct (H1 b Hb) as (s & [<-|[]] & E). left.
@@ -640,9 +643,13 @@ Proof.
 Qed.
 
 Lemma two_part_B alts ballots parts :
-  ballots <> [] -> part_check ballots parts = true -> TwoPart alts ballots -> two_cond alts parts.
+  part_check ballots parts = true -> TwoPart alts ballots -> two_cond alts parts.
 Proof.
-  intros Hne Hc [_ [Hnil|(s & t & Hs & Ht & Hall & Hcov)]]; [contradiction|].
+  intros Hc [_ [Hnil|(s & t & Hs & Ht & Hall & Hcov)]].
+  { (* no ballot: no part *)
+    subst ballots. apply part_check_spec in Hc. destruct Hc as (_ & H2 & _).
+    left. destruct parts as [|p rest]; [simpl; lia|].
+    destruct (H2 p (or_introl eq_refl)) as (b & [] & _). }
   apply part_check_spec in Hc. destruct Hc as (H1 & H2 & H3).
   assert (Hst : forall p, In p parts -> SetEq p s \/ SetEq p t).
   { intros p Hp. destruct (H2 p Hp) as (b & Hb & E). destruct (Hall b Hb) as [E'|E'];
@@ -652,7 +659,7 @@ Proof.
     eapply SetEq_trans; [exact Hp|now apply SetEq_sym]. }
   destruct parts as [|p [|q [|r rest]]].
   - destruct (H1 s Hs) as (x & [] & _).
-  - left. reflexivity.
+  - left. simpl. lia.
   - right. split; [reflexivity|]. simpl. rewrite app_nil_r.
     simpl in H3. rewrite !andb_true_iff in H3. destruct H3 as [[R _] _].
     destruct (Hst p (or_introl eq_refl)) as [Ep|Ep];
@@ -681,45 +688,38 @@ Proof.
   { rewrite set_eq_iff. unfold union_all. split; intros H.
     - eapply SetEq_trans; [apply SetEq_sym, to_set_SetEq|]. eapply SetEq_trans; [exact H|apply to_set_SetEq].
     - eapply SetEq_trans; [apply to_set_SetEq|]. eapply SetEq_trans; [exact H|apply SetEq_sym, to_set_SetEq]. }
-  destruct (Nat.eqb_spec (length ps) 1) as [E1|E1].
+  destruct (Nat.leb_spec (length ps) 1) as [E1|E1].
   - split; [intros [= <-]; auto|intros [[= <-] _]; reflexivity].
   - destruct (Nat.eqb_spec (length ps) 2) as [E2|E2]; simpl.
     + destruct (set_eq (union_all ps) (to_set alts)) eqn:E.
       * split; [intros [= <-]; split; [reflexivity|right; split; [exact E2|now apply Hcov]]
                |intros [[= <-] _]; reflexivity].
-      * split; [discriminate|]. intros [[= <-] [H|[_ H]]]; [contradiction|].
+      * split; [discriminate|]. intros [[= <-] [H|[_ H]]]; [lia|].
         apply Hcov in H. congruence.
-    + split; [discriminate|]. intros [[= <-] [H|[H _]]]; contradiction.
+    + split; [discriminate|]. intros [[= <-] [H|[H _]]]; [lia|contradiction].
 Qed.
 
-(* is_2_part returns a list <-> the profile is a 2-partition; the returned list passes the 2-partition checker *)
+(* is_2_part returns a list <-> the profile is a 2-partition (every profile, the one without ballots included);
+   the returned list passes the 2-partition checker *)
 Theorem two_part_correct alts ballots :
-  ballots <> [] ->
-  ((exists parts, is_2_part alts ballots = Some parts) <-> TwoPart alts ballots).
+  (exists parts, is_2_part alts ballots = Some parts) <-> TwoPart alts ballots.
 Proof.
-  intros Hne. split.
+  split.
   - intros (parts & H). apply is_2_part_unfold in H. destruct H as [H Hc].
     apply (two_part_A alts ballots parts); [now apply part_witness|exact Hc].
   - intros HT. assert (HP : PartOK ballots) by apply HT.
     apply part_correct in HP. destruct HP as (parts & Hp). exists parts.
     apply is_2_part_unfold. split; [exact Hp|].
-    apply (two_part_B alts ballots parts Hne); [now apply part_witness|exact HT].
+    apply (two_part_B alts ballots parts); [now apply part_witness|exact HT].
 Qed.
 
-(* soundness of is_2_part holds without the hypothesis *)
 Theorem two_part_sound alts ballots parts : is_2_part alts ballots = Some parts -> TwoPart alts ballots.
-Proof.
-  intros H. apply is_2_part_unfold in H. destruct H as [H Hc].
-  apply (two_part_A alts ballots parts); [now apply part_witness|exact Hc].
-Qed.
-
-Definition two_cond_check (alts : list N) (parts : list (list N)) : Prop :=
-  length parts <= 1 \/ (length parts = 2 /\ SetEq (concat parts) alts).
+Proof. intros H. apply two_part_correct. now exists parts. Qed.
 
 Lemma part2_check_unfold alts ballots parts :
-  part2_check alts ballots parts = true <-> part_check ballots parts = true /\ two_cond_check alts parts.
+  part2_check alts ballots parts = true <-> part_check ballots parts = true /\ two_cond alts parts.
 Proof.
-  unfold part2_check, two_cond_check.
+  unfold part2_check, two_cond.
   rewrite andb_true_iff, orb_true_iff, andb_true_iff, Nat.leb_le, Nat.eqb_eq, set_eq_iff. reflexivity.
 Qed.
 
@@ -727,31 +727,15 @@ Theorem two_part_witness alts ballots parts :
   is_2_part alts ballots = Some parts -> part2_check alts ballots parts = true.
 Proof.
   intros H. apply is_2_part_unfold in H. destruct H as [H Hc].
-  apply part2_check_unfold. split; [now apply part_witness|].
-  destruct Hc as [Hc|Hc]; [left; lia|now right].
+  apply part2_check_unfold. split; [now apply part_witness|exact Hc].
 Qed.
 
 Theorem part2_check_sound alts ballots parts : part2_check alts ballots parts = true -> TwoPart alts ballots.
-Proof.
-  intros H. apply part2_check_unfold in H. destruct H as [H Hc].
-  destruct parts as [|p rest].
-  - (* no part: no ballot *)
-    apply part_check_spec in H. destruct H as (H1 & _ & _).
-    destruct ballots as [|b bs]; [|destruct (H1 b (or_introl eq_refl)) as (s & [] & _)].
-    split; [intros b1 b2 []|now left].
-  - apply (two_part_A alts ballots (p :: rest) H).
-    destruct Hc as [Hc|Hc]; [left; simpl in *; lia|now right].
-Qed.
+Proof. intros H. apply part2_check_unfold in H. destruct H as [H Hc]. now apply (two_part_A alts ballots parts). Qed.
 
-(* is_2_part refuses the profile without ballots, which has zero (at most two) distinct approval sets *)
-Theorem two_part_no_ballots alts : is_2_part alts [] = None.
+(* the profile without ballots: zero (at most two) distinct approval sets, accepted with the empty partition *)
+Theorem two_part_no_ballots alts : is_2_part alts [] = Some [].
 Proof. reflexivity. Qed.
-
-Theorem two_part_no_ballots_refuted :
-  exists alts ballots, TwoPart alts ballots /\ is_2_part alts ballots = None.
-Proof.
-  exists [1%N], []. split; [|reflexivity]. split; [intros b1 b2 []|now left].
-Qed.
 
 Theorem part2_decide_correct alts ballots : part2_decide alts ballots = true <-> TwoPart alts ballots.
 Proof.
